@@ -488,6 +488,18 @@ impl World for RWorld {
                     }
                 }
             },
+            "cansend" if t.len() == 4 => {
+                let ch = num!(t[2], u8);
+                let n = num!(t[3], usize);
+                match parse_who(t[1]) {
+                    Some(Who::Client(h)) => match self.clients.get(&h) {
+                        None => BAD.into(),
+                        Some(c) => c.can_send_message(ch, n).to_string(),
+                    },
+                    Some(Who::SConn(id)) => srv!().can_send_message(id, ch, n).to_string(),
+                    _ => BAD.into(),
+                }
+            }
             "setc" | "setg" | "disc" | "disct" if t.len() == 2 => {
                 let h = num!(t[1], u64);
                 match self.clients.get_mut(&h) {
